@@ -1377,6 +1377,36 @@ Lemma validate_rule_tie :
                set_sstate l SPending (GraphExt.has_unusable_dynamic_input l s) s).
 Proof. split; [reflexivity|]. intros l s. reflexivity. Qed.
 
+(* Executor.try_skip_job, a check that is overtaken (an input record was replaced while the step was CHECKING):
+   the step goes back to PENDING and KEEPS its stored hash (generated outcome 1), so the next dispatch is a
+   check again (CHECKING, no command).  The other translated outcome, _reset_step_to_pending (2), drops the hash:
+   the next dispatch is RUNNING, a command, for a step none of whose inputs changed. *)
+Lemma has_hash_set_sstate l l' x d s s' : set_sstate l' x d s = Ok s' -> has_hash l s' = has_hash l s.
+Proof.
+  unfold set_sstate. destruct (find_step l' s); [|intros H; injection H as <-; reflexivity].
+  destruct (d && negb (sstate_eqb x SPending)); [discriminate|]. intros H. injection H as <-. reflexivity.
+Qed.
+
+Lemma has_hash_delete_hash l s : has_hash l (delete_hash l s) = false.
+Proof.
+  unfold has_hash, delete_hash. cbn. induction (shash s) as [|x xs IH]; [reflexivity|]. cbn.
+  destruct (str_eqb x l) eqn:E; cbn; [exact IH|].
+  destruct (str_eqb l x) eqn:E2; [|exact IH]. apply str_eqb_eq in E2. subst x. rewrite str_eqb_refl in E. discriminate.
+Qed.
+
+Lemma skip_overtaken_tie :
+  gen_skip_overtaken_outcome = 1 /\
+  (forall l s s', GraphExt.skip_overtaken l s = Ok s' -> has_hash l s' = has_hash l s) /\
+  (forall l s s', step_op (OpResetToPending l) s = Ok s' -> has_hash l s' = false) /\
+  (forall l s, step_op (OpDispatch l) s = set_sstate l (if has_hash l s then SChecking else SRunning) false s).
+Proof.
+  split; [reflexivity|]. split; [|split].
+  - intros l s s' H. unfold GraphExt.skip_overtaken in H. exact (has_hash_set_sstate l l SPending false s s' H).
+  - intros l s s' H. cbn [step_op] in H. destruct (reset_for_rerun l s) as [s1| |]; cbn [bind] in H; try discriminate.
+    rewrite (has_hash_set_sstate l l SPending false _ s' H). apply has_hash_delete_hash.
+  - intros l s. reflexivity.
+Qed.
+
 (* After a restart every tracked variable of every attached step has its current value recorded:
    rescan_env_vars writes back EVERY row that it found changed (several variables of one step
    included), and an unchanged row of an attached step already holds the current value. *)
